@@ -28,6 +28,17 @@ search       prefix of every OBSERVED raw trace x {drop-all, entries-early, root
              the acknowledged one.  Sensitivity self-test: with an fsync dropped or the pointer
              written before the metadata file (runtime mutations of the library) the oracle must
              produce a concrete crash prefix, otherwise the check fails.
+Faults     : one fault per run at EVERY durability call of the fault scenarios (temp creation, write, the
+             descriptor opened for an fsync, fsync, rename; files and directories): OSError(EIO) instead of the
+             call, and for every write also a POSIX short write.  The library must either abort the operation
+             (nothing acknowledged, pointer not advanced) or complete it whole: the same power-loss oracle judges
+             every prefix of what it did next and the durability of what it acknowledged; the replay is
+             {steps, fault index/kind, crash prefix}.  Faults on a DIRECTORY descriptor / fsync are tolerated by
+             the library by design (DESIGN.md C16 "Not in the model"): evaluated and counted, not reported.
+             Fault runs that hit a publish inside append_data are also compared with the model (op OFail).
+Bounded    : every in-process run happens in a worker subprocess (harness/lib/c16_worker.py) with a wall-clock
+             alarm, an address-space limit and a progress watchdog; a hang / crash / memory blow-up of the library
+             is reported as a violation with its input (key operation-not-bounded:*), never a stuck check.
 """
 from __future__ import annotations
 
@@ -52,7 +63,8 @@ MANIFEST_ENTRY = {
                   "publish call sequences regenerated from write_file / DataFileWriter on every run; the model's traces are "
                   "tied to the code by equality with the observed OS-call traces (in-process interception and strace), the "
                   "observed traces themselves are checked against the proved publish discipline, and an independent "
-                  "power-loss evaluator + reader replays every prefix of every observed trace",
+                  "power-loss evaluator + reader replays every prefix of every observed trace, also with one OS fault "
+                  "(EIO or short write) injected at each durability call",
     "level_note": "trusted: Coq kernel; the POSIX-strict power-loss model (fsync = barrier for one inode, directory fsync = "
                   "barrier for that directory's entries); translator/gen_durable.py; the tracers and the canonicaliser; "
                   "directory creation (makedirs), the table root's own entry and a swallowed OSError from a directory "
@@ -475,6 +487,8 @@ def oracle_faults(ctx, scenarios: List[List[Any]]) -> List[Case]:
             continue
         for f in pc.faultlog:
             specs.append({"steps": pc.steps, "mode": "inproc", "fault": {"index": f["i"]}, "_expect": f})
+            if f["call"] == "write":     # the same call, as a POSIX short write (fewer bytes transferred, reported in the return value)
+                specs.append({"steps": pc.steps, "mode": "inproc", "fault": {"index": f["i"], "kind": "short_write"}, "_expect": f})
     fcases = make_cases(ctx, specs)
     stats = {"scenarios": len(probes), "durability_calls": len(specs), "by_call": {}, "aborted_cleanly": 0, "swallowed_and_acknowledged": 0,
              "dir_sync_faults_tolerated_by_design": 0, "dir_sync_faults_with_violating_prefixes": 0, "not_injected": 0}
